@@ -28,8 +28,8 @@ ASSUMPTIONS = ["PARTIAL: the first clause (the expected fraction of equal regist
 
 
 def correspond(run):
-    setflib.correspond_registers(run, 300 if run.tier == "quick" else 3000)
-    rc, js, out, err = vlib.harness(["bounds-props", "--seed", run.seed, "--n", 6000 if run.tier == "quick" else 200000], timeout=1800)
+    setflib.correspond_registers(run, 300 if run.depth == "quick" else 3000)
+    rc, js, out, err = vlib.harness(["bounds-props", "--seed", run.seed, "--n", 6000 if run.depth == "quick" else 200000], timeout=1800)
     if rc != 0 or js is None:
         run.oblige("direct:bounds-props", "correspondence", False, (out[-300:] + err[-300:]))
         return
